@@ -158,6 +158,102 @@ func c12Direct(c *core.Ctx) {
 	})
 }
 
+// c12RunSite starts one program whose participants of the given site are the sequence cs.Seq,
+// registered / enumerated in the order cs.Perm, and returns the shared event log.
+func c12RunSite(cs c12Case) (names []string, shared *scen.RT, o *scen.StartObs) {
+	var comps []any
+	var opts []app.SettingOption
+	names = make([]string, len(cs.Seq))
+	user := map[string]bool{}
+	var parts []*scen.Part
+	mk := func(i, s int) scen.Part {
+		names[i] = fmt.Sprintf("p%d", i)
+		user[names[i]] = true
+		return scen.Part{Nm: names[i], O: c12Order(s)}
+	}
+	var loaders []configure.Loader
+	var node *scen.N
+	for i, s := range cs.Seq {
+		p := mk(i, s)
+		switch cs.Site {
+		case "runners":
+			switch c12Class(s) {
+			case 0:
+				x := &scen.RunP{Part: p}
+				comps, parts = append(comps, x), append(parts, &x.Part)
+			case 1:
+				x := &scen.RunO{Part: p}
+				comps, parts = append(comps, x), append(parts, &x.Part)
+			default:
+				x := &scen.RunN{Part: p}
+				comps, parts = append(comps, x), append(parts, &x.Part)
+			}
+		case "loaders":
+			doc := fmt.Sprintf("k%d: 1\n", i)
+			switch c12Class(s) {
+			case 0:
+				x := &scen.LoadP{Part: p, Doc: doc}
+				loaders, parts = append(loaders, x), append(parts, &x.Part)
+			case 1:
+				x := &scen.LoadO{Part: p, Doc: doc}
+				loaders, parts = append(loaders, x), append(parts, &x.Part)
+			default:
+				x := &scen.LoadN{Part: p, Doc: doc}
+				loaders, parts = append(loaders, x), append(parts, &x.Part)
+			}
+		case "processors":
+			switch c12Class(s) {
+			case 0:
+				x := &scen.ProcP{}
+				x.Part = p
+				comps, parts = append(comps, x), append(parts, &x.Part)
+			case 1:
+				x := &scen.ProcO{}
+				x.Part = p
+				comps, parts = append(comps, x), append(parts, &x.Part)
+			default:
+				x := &scen.ProcN{}
+				x.Part = p
+				comps, parts = append(comps, x), append(parts, &x.Part)
+			}
+		}
+	}
+	if cs.Site == "processors" {
+		node = &scen.N{Nm: "anode", Q: "qa"}
+		comps = append(comps, node)
+	}
+	if cs.Site == "loaders" {
+		// loaders are sequenced in the order they were added: apply the permutation there
+		var ls []configure.Loader
+		for _, i := range cs.Perm {
+			ls = append(ls, loaders[i])
+		}
+		opts = append(opts, app.SetConfigLoader(ls...))
+	}
+	var base []string
+	var reg []any
+	for _, i := range cs.Perm {
+		base = append(base, names[i])
+		if cs.Site != "loaders" {
+			reg = append(reg, comps[i])
+		}
+	}
+	if node != nil {
+		reg = append(reg, node)
+	}
+	sp := scen.StartSpec{Ch: envx.Fixed("", nil), Comps: reg, Opts: opts, User: user, Base: base}
+	// the participants need the runtime that Start creates: give them a shared log first
+	shared = &scen.RT{}
+	for _, p := range parts {
+		p.RT = shared
+	}
+	if node != nil {
+		scen.SetRT(node, shared)
+	}
+	o = scen.Start(sp)
+	return
+}
+
 func c12Sites(c *core.Ctx) {
 	gen := func(yield func(c12Case) bool) {
 		for _, site := range []string{"runners", "loaders", "processors"} {
@@ -181,98 +277,7 @@ func c12Sites(c *core.Ctx) {
 		}
 	}
 	Cases(c, gen, func(c *core.Ctx, cs c12Case) {
-		rt := (*scen.RT)(nil)
-		var comps []any
-		var opts []app.SettingOption
-		names := make([]string, len(cs.Seq))
-		user := map[string]bool{}
-		var parts []*scen.Part
-		mk := func(i, s int) scen.Part {
-			names[i] = fmt.Sprintf("p%d", i)
-			user[names[i]] = true
-			return scen.Part{Nm: names[i], O: c12Order(s)}
-		}
-		var loaders []configure.Loader
-		var node *scen.N
-		for i, s := range cs.Seq {
-			p := mk(i, s)
-			switch cs.Site {
-			case "runners":
-				switch c12Class(s) {
-				case 0:
-					x := &scen.RunP{Part: p}
-					comps, parts = append(comps, x), append(parts, &x.Part)
-				case 1:
-					x := &scen.RunO{Part: p}
-					comps, parts = append(comps, x), append(parts, &x.Part)
-				default:
-					x := &scen.RunN{Part: p}
-					comps, parts = append(comps, x), append(parts, &x.Part)
-				}
-			case "loaders":
-				doc := fmt.Sprintf("k%d: 1\n", i)
-				switch c12Class(s) {
-				case 0:
-					x := &scen.LoadP{Part: p, Doc: doc}
-					loaders, parts = append(loaders, x), append(parts, &x.Part)
-				case 1:
-					x := &scen.LoadO{Part: p, Doc: doc}
-					loaders, parts = append(loaders, x), append(parts, &x.Part)
-				default:
-					x := &scen.LoadN{Part: p, Doc: doc}
-					loaders, parts = append(loaders, x), append(parts, &x.Part)
-				}
-			case "processors":
-				switch c12Class(s) {
-				case 0:
-					x := &scen.ProcP{}
-					x.Part = p
-					comps, parts = append(comps, x), append(parts, &x.Part)
-				case 1:
-					x := &scen.ProcO{}
-					x.Part = p
-					comps, parts = append(comps, x), append(parts, &x.Part)
-				default:
-					x := &scen.ProcN{}
-					x.Part = p
-					comps, parts = append(comps, x), append(parts, &x.Part)
-				}
-			}
-		}
-		if cs.Site == "processors" {
-			node = &scen.N{Nm: "anode", Q: "qa"}
-			comps = append(comps, node)
-		}
-		if cs.Site == "loaders" {
-			// loaders are sequenced in the order they were added: apply the permutation there
-			var ls []configure.Loader
-			for _, i := range cs.Perm {
-				ls = append(ls, loaders[i])
-			}
-			opts = append(opts, app.SetConfigLoader(ls...))
-		}
-		var base []string
-		var reg []any
-		for _, i := range cs.Perm {
-			base = append(base, names[i])
-			if cs.Site != "loaders" {
-				reg = append(reg, comps[i])
-			}
-		}
-		if node != nil {
-			reg = append(reg, node)
-		}
-		sp := scen.StartSpec{Ch: envx.Fixed("", nil), Comps: reg, Opts: opts, User: user, Base: base}
-		// the participants need the runtime that Start creates: give them a shared log first
-		shared := &scen.RT{}
-		for _, p := range parts {
-			p.RT = shared
-		}
-		if node != nil {
-			scen.SetRT(node, shared)
-		}
-		_ = rt
-		o := scen.Start(sp)
+		names, shared, o := c12RunSite(cs)
 		c.S.Evaluations++
 		c.S.Programs++
 		c.S.States++
